@@ -675,7 +675,7 @@ package decoder
 //@ func (*Stream).read(s) (ok)
 //@   props C09 C06
 //@   requires wfStream(s)
-//@   ensures wfStream(s) && s.cursor == old(s.cursor) && (ok ==> s.cursor <= s.length)
+//@   ensures wfStream(s) && s.cursor == old(s.cursor) && (ok ==> s.cursor <= s.length) && len(s.buf) >= old(len(s.buf))
 // the bytes already consumed are never changed by a refill
 //@   ensures forall k :: 0 <= k && k < s.cursor ==> s.buf[k] == old(s.buf[k])
 // "no more input" is reported only at end of input or together with the reader's error, which is kept for the caller
@@ -737,4 +737,32 @@ package decoder
 //@   ensures wfStream(s) && s.cursor == old(s.cursor)
 //@   ensures forall k :: 0 <= k && k < s.cursor ==> s.buf[k] == old(s.buf[k])
 //@   ensures err == nil ==> old(s.buf[s.cursor]) == 0
+//@   assigns all
+
+// ---------------------------------------------------------------- refill until n bytes are there (C09, C06)
+//@ func (*Stream).bufptr(s) (p)
+//@   props C09
+//@   trusted reads the data word of the slice header through unsafe.Pointer
+//@   ensures p == ptrOf(s.buf)
+//@   assigns nothing
+
+//@ func readAtLeast(s, n, p) (ok)
+//@   props C09 C06
+//@   requires wfStream(s) && 0 <= n && n <= 16 && p != nil
+// p is the address of a pointer variable of the caller; the window is a heap array: they never overlap (assumed, listed)
+//@   postassume read: p + 8 <= ptrOf(s.buf) || ptrOf(s.buf) + cap(s.buf) <= p
+//@   ensures wfStream(s) && s.cursor == old(s.cursor) && len(s.buf) >= old(len(s.buf))
+//@   ensures ok ==> s.cursor + n < s.length
+//@   ensures forall k :: 0 <= k && k < s.cursor ==> s.buf[k] == old(s.buf[k])
+//@   assigns all
+//@   loop 1: invariant wfStream(s)
+//@   loop 1: invariant s.cursor == old(s.cursor) && len(s.buf) >= old(len(s.buf))
+//@   loop 1: invariant forall k :: 0 <= k && k < s.cursor ==> s.buf[k] == old(s.buf[k])
+
+// the escaped key character helper of the stream scanners: every slice it takes lies inside the
+// delivered data, and it leaves the cursor on the last byte of the (single or paired) escape
+//@ func decodeKeyCharByUnicodeRuneStream(s) (chars, err)
+//@   props C09 C15 C06
+//@   requires wfStream(s)
+//@   ensures err == nil ==> wfStream(s) && (s.cursor == old(s.cursor) + 3 || s.cursor == old(s.cursor) + 9) && s.cursor + 1 < len(s.buf) && len(chars) >= 1 && len(chars) <= 4
 //@   assigns all
